@@ -1,3 +1,99 @@
 import Usual.Common
-/-! Model driver for C16 (stub: not built yet). -/
-def main : IO Unit := IO.println "stub"
+import Usual.C16.Crc32
+import Usual.C16.Lookup3
+import Usual.C16.SipHash
+import Usual.C16.Spooky
+import Usual.C16.XXHash
+import Usual.C16.MemHash
+/-! Model driver for C16 (non-cryptographic hashes).  Line protocol, one output line per input line:
+
+    #case                      forget the current buffer
+    data <hex|->               set the current buffer           → ok <len>
+    crc <init>                 calc_crc32(buf, len, init)       → 8 hex digits
+    crcinc <split> <init>      calc_crc32(b, |b|, calc_crc32(a, |a|, init)), a = first <split> bytes
+    l3                         hash_lookup3(buf, len)           → 16 hex digits
+    sip <k0> <k1>              siphash24(buf, len, k0, k1)      → 16 hex digits
+    spooky <h1> <h2>           spookyhash(buf, len, &h1, &h2)   → 16 hex digits, space, 16 hex digits
+    xxh <seed>                 xxhash(buf, len, seed)           → 8 hex digits
+    mem <seed>                 memhash_seed(buf, len, seed)     → 8 hex digits
+
+Numbers are hex without prefix (1..8 digits for 32-bit, 1..16 for 64-bit arguments, decimal
+for <split>); anything else is `bad-op`. -/
+open Usual
+
+namespace DrvC16
+
+def hexNat (s : String) (maxDigits : Nat) : Option Nat :=
+  let cs := s.toList
+  if cs.isEmpty || cs.length > maxDigits then none else
+  cs.foldl (fun acc c => match acc, hexVal c with
+    | some a, some v => some (a * 16 + v)
+    | _, _ => none) (some 0)
+
+def decNat (s : String) : Option Nat :=
+  let cs := s.toList
+  if cs.isEmpty || cs.length > 9 then none else
+  cs.foldl (fun acc c => match acc with
+    | some a => if '0' ≤ c ∧ c ≤ '9' then some (a * 10 + (c.toNat - '0'.toNat)) else none
+    | none => none) (some 0)
+
+def hexPad (n : Nat) (digits : Nat) : String :=
+  let ds := Nat.toDigits 16 n
+  String.ofList (List.replicate (digits - ds.length) '0' ++ ds)
+
+def h32 (x : UInt32) : String := hexPad x.toNat 8
+def h64 (x : UInt64) : String := hexPad x.toNat 16
+
+abbrev State := Option (List UInt8)
+
+def step (st : State) (line : String) : State × String :=
+  match words line with
+  | ["#case"] => (none, "#case")
+  | ["data", hx] =>
+    match parseHex hx with
+    | some bs => (some bs, s!"ok {bs.length}")
+    | none => (st, "bad-op")
+  | op :: args =>
+    match st with
+    | none => (st, "bad-op")
+    | some buf =>
+      let out : String :=
+        match op, args with
+        | "crc", [i] =>
+          match hexNat i 8 with
+          | some i => h32 (Usual.C16.Crc32.calcCrc32 buf (UInt32.ofNat i))
+          | none => "bad-op"
+        | "crcinc", [k, i] =>
+          match decNat k, hexNat i 8 with
+          | some k, some i =>
+            if k ≤ buf.length then
+              h32 (Usual.C16.Crc32.calcCrc32 (buf.drop k)
+                    (Usual.C16.Crc32.calcCrc32 (buf.take k) (UInt32.ofNat i)))
+            else "bad-op"
+          | _, _ => "bad-op"
+        | "l3", [] => h64 (Usual.C16.Lookup3.hashLookup3 buf)
+        | "sip", [a, b] =>
+          match hexNat a 16, hexNat b 16 with
+          | some a, some b => h64 (Usual.C16.SipHash.siphash24 buf (UInt64.ofNat a) (UInt64.ofNat b))
+          | _, _ => "bad-op"
+        | "spooky", [a, b] =>
+          match hexNat a 16, hexNat b 16 with
+          | some a, some b =>
+            let r := Usual.C16.Spooky.spookyhash buf (UInt64.ofNat a) (UInt64.ofNat b)
+            h64 r.1 ++ " " ++ h64 r.2
+          | _, _ => "bad-op"
+        | "xxh", [s] =>
+          match hexNat s 8 with
+          | some s => h32 (Usual.C16.XXHash.xxh32 buf (UInt32.ofNat s))
+          | none => "bad-op"
+        | "mem", [s] =>
+          match hexNat s 8 with
+          | some s => h32 (Usual.C16.MemHash.memhashSeed true buf (UInt32.ofNat s))
+          | none => "bad-op"
+        | _, _ => "bad-op"
+      (st, out)
+  | [] => (st, "bad-op")
+
+end DrvC16
+
+def main : IO Unit := Usual.runDriver (none : DrvC16.State) DrvC16.step
